@@ -21,6 +21,8 @@ theorem leEncode_eq_le (w v : Nat) : Go.leEncode w v = B.le w v := by
 @[simp] theorem bind_error {α β : Type} (e : Err) (f : α → M β) : (Except.error e : M α) >>= f = Except.error e := id rfl
 @[simp] theorem pure_eq_ok {α : Type} (a : α) : (pure a : M α) = Except.ok a := id rfl
 
+@[simp] theorem throw_eq {α : Type} (e : Err) : (throw e : M α) = Except.error e := id rfl
+
 theorem unle_lt (b : List UInt8) : B.unle b < 256 ^ b.length := by
   induction b with
   | nil => simp [B.unle]
